@@ -274,8 +274,13 @@ mem_replace_arr(const void *src, const size_t src_size, const size_t repl_count,
 		// looking for first to replace
 		for (i = 0; i < repl_count; i ++) {
 			if (NULL != founded[i] &&
+#ifdef LIBLCB_VERIF /* Verification build: test for NULL first, relational compare with NULL is undefined for the model checker. */
+			    (NULL == founded[first_idx] ||
+			    founded[i] < founded[first_idx])) {
+#else
 			    (founded[i] < founded[first_idx] ||
 			    NULL == founded[first_idx])) {
+#endif
 				first_idx = i;
 			}
 		}
